@@ -39,6 +39,7 @@ def replay_sort(cases_path, out_path):
     cases = json.load(open(cases_path))
     F, mon, executed = Fails(), Monitor(), 0
     for n, c in enumerate(cases):
+        n = c.get("_n", n)
         K, rev, na_last, perm = c["K"], c["rev"], c["naLast"], c["perm"]
         nk = len(rev)
         tag = ["int", "str", "date", "float", "bool"][n % 5]
@@ -226,11 +227,12 @@ def replay_group(cases_path, out_path):
     F, mon, executed = Fails(), Monitor(), 0
     subsets = [FUNS] + [list(s) for k in (1, 2) for s in itertools.combinations(FUNS, k)]
     for n, c in enumerate(cases):
+        n = c.get("_n", n)
         K, V = c["K"], c["V"]
         nk = len(K[0]) if K else 1
-        tag = KEY_TAGS[n % 4]
-        pal = (n // 4) % 3
-        variant = (n // 12) % 6
+        tag = (KEY_TAGS + ["intc"])[n % 5]
+        pal = (n // 5) % 3
+        variant = (n // 15) % 6
         funs = subsets[(n // 5) % len(subsets)]
         rows = [list(k) + [V[i], i] for i, k in enumerate(K)]
         names = ["g%d" % (i + 1) for i in range(nk)] + ["v", "pos"]
